@@ -6,6 +6,7 @@ import (
 	"os"
 	"testing"
 	"testing/synctest"
+	"time"
 
 	"verif/harness/common"
 )
@@ -405,6 +406,7 @@ func TestRandom(t *testing.T) {
 	first := common.EnvInt("VERIF_FIRST", 0)
 	tr := common.NewTrace("trace.ndjson")
 	defer tr.Close()
+	stallWatchdog(tr)
 	for i := first; i < first+n; i++ {
 		runTrace(t, tr, i, steps)
 	}
@@ -418,6 +420,7 @@ func TestFairness(t *testing.T) {
 	n := common.EnvInt("VERIF_N", 20)
 	tr := common.NewTrace("trace.ndjson")
 	defer tr.Close()
+	stallWatchdog(tr)
 	for i := 0; i < n; i++ {
 		idx := 5000 + i
 		synctest.Test(t, func(t *testing.T) {
@@ -483,4 +486,15 @@ func TestFairness(t *testing.T) {
 			sc.drain()
 		})
 	}
+}
+
+// stallWatchdog ends the driver when the real code stops making progress
+// (for instance spinning inside a critical section): nothing has been
+// logged for a long time although the driver is waiting for a step of the
+// real code to finish.
+func stallWatchdog(tr *common.Trace) {
+	limit := time.Duration(common.EnvInt("VERIF_STALL_SECS", 180)) * time.Second
+	tr.Watchdog(limit, func() common.Ev {
+		return common.Ev{"ev": "stall", "seconds": int(limit / time.Second)}
+	})
 }
